@@ -21,7 +21,7 @@ type Entry struct {
 
 // Step is one action of a history.
 type Step struct {
-	Kind    string     `json:"kind"` // attest | batch | propose | restart
+	Kind    string     `json:"kind"` // attest | batch | propose | restart | writes-fail | writes-ok
 	ViaGRPC bool       `json:"via_grpc,omitempty"`
 	Entries []Entry    `json:"entries,omitempty"`
 	Key     int        `json:"key,omitempty"`
@@ -149,6 +149,7 @@ type GenOpts struct {
 	MinSteps   int
 	MaxSteps   int
 	NoDupBatch bool
+	FaultP     int // per cent of restart-slots that toggle a store-write-failure window instead
 	ParP       int // per cent of single steps that run concurrently with their predecessor
 }
 
@@ -202,6 +203,11 @@ func GenStep(t *rapid.T, o GenOpts) Step {
 
 		return st
 	default:
+		if o.FaultP > 0 && rapid.IntRange(0, 99).Draw(t, "fault_toggle") < o.FaultP {
+			// a window in which the store cannot be written (disk full, read-only remount)
+			return Step{Kind: rapid.SampledFrom([]string{"writes-fail", "writes-ok"}).Draw(t, "toggle")}
+		}
+
 		return Step{Kind: "restart"}
 	}
 }
